@@ -145,7 +145,8 @@ theorem stop_ok_source_law (M n w f room o : Nat) (fns : List Core.FDecl) (env e
 
 /-- **C02 (try/stop) on the core**: the emitted code — `ap` and `fp` saved, the handler address stored
 in the word `defeat`, one Turing jump that asks whether the body would halt with `defeat = halt`, and
-`j [defeat]; halt` for every `!is_defeat()` inside the body — realises exactly that semantics on the
+`j [defeat]; halt` for every `!is_defeat()` and `j [defeat]` before every conditional halt of a
+`!truth_is_defeat(c)` inside the body — realises exactly that semantics on the
 committed timeline: when the body is defeated its effects up to the defeat call stay and the handler
 runs in the restored frame; when it is not, the handler is skipped.  For every core program with
 `try/stop` blocks (any nesting of blocks, conditionals, loops and calls inside the body and around
@@ -181,5 +182,23 @@ example :
     (Core.srcRun ⟨2, 100, true⟩ 12 [] (pr 5)).map (fun r => (r.2.1, r.2.2)) =
       some ([Ev.out 65, Ev.out 89], .returned) := by
   refine ⟨by decide, by decide, by decide +kernel, by decide +kernel⟩
+
+/-- the same with `!truth_is_defeat(x > 5 or x == 0)` in the body (conditional halts behind `j [defeat]`) -/
+example :
+    let pr (v : Int) : Core.CProg :=
+      { params := [], funs := [],
+        body := .decl "x" (.lit 5)
+          (.tryStop (.putc 65 (.assign "x" (.lit v)
+                      (.defeatIf (.or (.cmp .gt (.var "x") (.lit 5)) (.cmp .eq (.var "x") (.lit 0))) (.putc 66 .nil))))
+                    (.putc 83 .nil)
+            (.ifb (.cmp .eq (.var "x") (.lit 5)) (.putc 89 .nil) (.putc 78 .nil) .ret)) }
+    Core.wfProg (pr 9) = true ∧
+    (Core.srcRun ⟨2, 100, true⟩ 12 [] (pr 9)).map (fun r => (r.2.1, r.2.2)) =
+      some ([Ev.out 65, Ev.out 83, Ev.out 78], .returned) ∧
+    (Core.srcRun ⟨2, 100, true⟩ 12 [] (pr 0)).map (fun r => (r.2.1, r.2.2)) =
+      some ([Ev.out 65, Ev.out 83, Ev.out 78], .returned) ∧
+    (Core.srcRun ⟨2, 100, true⟩ 12 [] (pr 5)).map (fun r => (r.2.1, r.2.2)) =
+      some ([Ev.out 65, Ev.out 66, Ev.out 89], .returned) := by
+  refine ⟨by decide, by decide +kernel, by decide +kernel, by decide +kernel⟩
 
 end HidVerif.Props.C02
